@@ -263,6 +263,6 @@ func (r *runner) stepApply(i int, st Step) {
 		close(c.done)
 	}()
 	if st.K == 0 {
-		waitCall(c, hangBound)
+		waitCall(c, r.bound())
 	}
 }
